@@ -107,12 +107,15 @@ pub struct Trace {
     pub sealed: bool,
     pub stack_base: u64,
     pub params: [u64; 4],
+    /// size of the (single) explicit stack slot the function declares
+    pub stack_slot_size: u32,
+    pub nstack_slots: u8,
 }
 impl Trace {
     pub const fn new() -> Trace {
         Trace { vars: [0; 24], nvars: 0, at_srcloc: [[0; 24]; 4], block_at_srcloc: [u32::MAX; 4], nsrcloc: 0, access: Access::None, naccess: 0,
                 trapped: false, accesses_before_trap: 0, call: None, ncalls: 0, terms: [Term::None; MAXB], term_count: [0; MAXB], switched: [0; MAXB],
-                nblocks: 0, finalized: false, sealed: false, stack_base: 0, params: [0; 4] }
+                nblocks: 0, finalized: false, sealed: false, stack_base: 0, params: [0; 4], stack_slot_size: 0, nstack_slots: 0 }
     }
 }
 pub static mut TRACE: Trace = Trace::new();
@@ -188,7 +191,7 @@ impl<'a> FunctionBuilder<'a> {
     }
     pub fn def_var(&mut self, v: Variable, val: Value) { let x = self.val(val); self.t.vars[v.0 as usize] = x; }
     pub fn use_var(&mut self, v: Variable) -> Value { let x = self.t.vars[v.0 as usize]; self.push(I64, x) }
-    pub fn create_sized_stack_slot(&mut self, _d: StackSlotData) -> StackSlot { StackSlot(0) }
+    pub fn create_sized_stack_slot(&mut self, d: StackSlotData) -> StackSlot { self.t.stack_slot_size = d.size; if self.t.nstack_slots < 250 { self.t.nstack_slots += 1; } StackSlot(0) }
     pub fn set_srcloc(&mut self, s: SourceLoc) {
         let k = s.0 as usize;
         if k < 4 {
